@@ -495,7 +495,10 @@ func Update(ctx context.Context, scope *ReferenceScope, query parser.UpdateQuery
 				internalIds[viewref] = internalId
 			}
 
-			fieldIdx, _ := viewsToUpdate[viewref].Header.SearchIndex(uset.Field)
+			fieldIdx, err := viewsToUpdate[viewref].Header.SearchIndex(uset.Field)
+			if err != nil {
+				return nil, nil, NewUpdateFieldNotExistError(uset.Field)
+			}
 			if _, ok := updatesList[viewref]; !ok {
 				updatesList[viewref] = make(map[int]*UintPool)
 			}
